@@ -87,6 +87,17 @@ Lemma v_push_merge_cons2 e e' v s t :
   v_push_merge (e :: e' :: v) s t = e :: v_push_merge (e' :: v) s t.
 Proof. reflexivity. Qed.
 
+(* take_zw takes a prefix *)
+Lemma take_zw_prefix : forall s, exists suf, s = take_zw s ++ suf.
+Proof.
+  induction s as [|c s [suf IH]]; cbn [take_zw].
+  - exists []. reflexivity.
+  - destruct (cw c) as [[|q]|].
+    + exists suf. cbn [app]. rewrite <- IH. reflexivity.
+    + exists (c :: s). reflexivity.
+    + exists (c :: s). reflexivity.
+Qed.
+
 (* hw_scan takes a prefix of the remaining piece (or nothing) *)
 Lemma hw_scan_prefix ovf l0 : forall s first tr ll wp taken ll' wp',
   hw_scan ovf l0 first s tr ll wp = Ok (taken, ll', wp') ->
@@ -104,7 +115,8 @@ Proof.
       * rewrite (Hf eq_refl) in *. bd H lw Hlw.
         destruct (lw =? 0).
         -- destruct ovf; [|discriminate H]. inversion H; subst.
-           right. exists s. reflexivity.
+           right. destruct (take_zw_prefix s) as [suf Hs]. exists suf.
+           cbn [rev app]. rewrite <- Hs. reflexivity.
         -- inversion H; subst. left; reflexivity.
       * inversion H; subst. right. exists (c :: s). reflexivity.
 Qed.
